@@ -147,6 +147,14 @@ def witnesses(cases):
                     + "  using JM = Eigen::Matrix<double, GT::Dof, GT::Dof * K>;\n"
                     + "  Eigen::Map<JM> m1(o1), m2(o2), m3(o3);\n  m1 = dg;\n  m2 = dvel;\n  m3 = dacc;\n")
         W.add("sj%d_dvs" % ci, sig, body_dvs, case=(gk, K, basis, u), g=g, kind="dvs")
+        if ci < 2:
+            # the velocity Jacobian alone (no acceleration output requested): a legal call whose result must be the same
+            body_v = (pre + "  std::array<Tn, K> vs;\n  for (int j = 0; j < K; ++j) vs[j] = Eigen::Map<const Tn>(p0 + GT::Dof * j);\n"
+                      + "  std::span<const Tn, K> vsp(vs);\n  smooth::SplineJacobian<GT, K - 1> dvel;\n"
+                      + "  const auto dg = smooth::cspline_eval_dg_dvs<K, GT>(vsp, Bcum, *p2, dvel);\n"
+                      + "  using JM = Eigen::Matrix<double, GT::Dof, GT::Dof * K>;\n"
+                      + "  Eigen::Map<JM> m1(o1), m2(o2), m3(o3);\n  m1 = dg;\n  m2 = dvel;\n  m3.setZero();\n")
+            W.add("sj%d_dvsv" % ci, sig, body_v, case=(gk, K, basis, u), g=g, kind="dvsv")
         body_dgs = (pre + "  std::array<GT, K + 1> gs;\n  gs[0] = GT::exp(Eigen::Map<const Tn>(p0));\n"
                     + "  for (int j = 1; j <= K; ++j) gs[j] = gs[j - 1] * GT::exp(Eigen::Map<const Tn>(p0 + GT::Dof * j));\n"
                     + "  std::span<const GT, K + 1> gsp(gs);\n  smooth::SplineJacobian<GT, K> dvel, dacc;\n"
@@ -178,8 +186,8 @@ def run(rep, tier, tol=1e-7):
         gk, K, basis, u = meta["case"]
         g, kind = meta["g"], meta["kind"]
         n = g.dof
-        rule = "X2" if kind == "dvs" else "X3"
-        nin = K if kind == "dvs" else K + 1
+        rule = "X2" if kind in ("dvs", "dvsv") else "X3"
+        nin = K if kind in ("dvs", "dvsv") else K + 1
         tab = tables.cumulative(tables.BASES[basis](K))
         # directions: control tangents c_j (ray), perturbation directions d_j (constants)
         cs, ds = [], []
@@ -213,7 +221,7 @@ def run(rep, tier, tol=1e-7):
             gens_flat = rays.mat_from(st0, 6, n, n * n, "generator")
             gens = [[[gens_flat[r][n * k + c] for c in range(n)] for r in range(n)] for k in range(n)]
             M = Model(gens, n)
-            if kind == "dvs":
+            if kind in ("dvs", "dvsv"):
                 vs = [[[Series({1: cs[j][k]}, rays.N_IN)] for k in range(n)] for j in range(K)]
                 eg, ew, ea = M.run(vs, dirs, B, B1, B2)
             else:
@@ -232,6 +240,8 @@ def run(rep, tier, tol=1e-7):
                 Jw = rays.mat_from(st, 4, n, n * blocks)
                 Ja = rays.mat_from(st, 5, n, n * blocks)
                 for name, J, exp_ in (("value", Jg, eg), ("velocity", Jw, ew), ("acceleration", Ja, ea)):
+                    if kind == "dvsv" and name == "acceleration":
+                        continue
                     got = contract(J, dirs, n, blocks)
                     mm, known = rays.first_mismatch(got, exp_, ORDER)
                     best.setdefault(name, []).append((mm, known, path))
@@ -239,11 +249,13 @@ def run(rep, tier, tol=1e-7):
             rep.broke("%s (%s): %s" % (fname, label, ex))
             continue
         for name in ("value", "velocity", "acceleration"):
+            if name not in best:
+                continue
             results = best[name]
             full = [r for r in results if r[0] is None and r[1] >= 5]
             low = [r for r in results if r[0] is not None and (tstar == 0.0 or abs(float(r[0][3] - r[0][4])) * tstar ** r[0][2] > tol)]
             ok = bool(full) and not low
-            rep.instance(rule, "cspline_eval_dg_%s" % kind, "%s, %s" % (name, label), ok=ok,
+            rep.instance(rule, "cspline_eval_dg_%s" % kind[:3], "%s%s, %s" % (name, " (velocity output only)" if kind == "dvsv" else "", label), ok=ok,
                          sample={"witness": fname, "paths": len(results), "t_switch": tstar})
             if ok:
                 continue
@@ -251,7 +263,7 @@ def run(rep, tier, tol=1e-7):
             conds = ", ".join("%s=%s" % (c[0], c[1]) for c in path["conds"][:3]) or "straight-line"
             msg = ("component %d: coefficient of t^%d is %s, the derivative of the defining recursion has %s" % (mm[0], mm[2], mm[3], mm[4])) if mm else \
                 "no path is known to order %d" % ORDER
-            rep.violation(Finding(rule, "cspline_eval_dg_%s" % kind, "%s, %s" % (name, label),
+            rep.violation(Finding(rule, "cspline_eval_dg_%s" % kind[:3], "%s%s, %s" % (name, " (velocity output only)" if kind == "dvsv" else "", label),
                                   "the %s Jacobian w.r.t. the %s, contracted with a rational direction, differs from the directional derivative of "
                                   "g = prod exp(B_j v_j) (and its body velocity / acceleration) along v_j = t c_j on path [%s]: %s"
-                                  % (name, "differences" if kind == "dvs" else "control points", conds, msg), None, None, detail={"witness": fname}))
+                                  % (name, "differences" if kind in ("dvs", "dvsv") else "control points", conds, msg), None, None, detail={"witness": fname}))
